@@ -156,3 +156,8 @@ UNIT = {
       extra=[{'rule': 'R7', 'regex': r'Primitive::array::<T, _, _, _>\(self\.iter\(\)(.*?), update\)', 'replace': r'Primitive::array::<T, U__>(hoist_iter(this)\1, update)'}]),
  },
 }
+
+# C10 (documents built from scratch reload equal, mechanism "derived dictionary writers incl. indirect fields"): Ref (/Parent, /Kids), RcRef (/Pages, fonts), MaybeRef (/Resources, descendant fonts), Lazy (fonts, annotations), Vec (/Kids, /Contents)
+# -- the same obligations also count for C10 (no contract changed).
+for k__ in ['Primitive::resolve', 'Primitive::into_reference', 'Primitive::into_array', 'Ref::new', 'Ref::get_inner', 'RcRef::new', 'RcRef::get_ref', 'plainref_to_primitive', 'ref_from_primitive', 'ref_to_primitive', 'rcref_from_primitive', 'rcref_to_primitive', 'mayberef_from_primitive', 'mayberef_to_primitive', 'Lazy::load', 'lazy_from_primitive', 'lazy_to_primitive', 'vec_from_primitive', 'vec_to_primitive']:
+    UNIT['items'][k__]['props'] = list(UNIT['items'][k__]['props']) + ['C10']
